@@ -406,6 +406,40 @@ def rule_quantize_model(rep, repo):
               "with layer_indexes %s the layers handed to model_quantize "
               "are %s, expected %s" % (label, sorted(got), sorted(want)),
               loc=loc)
+  # R3 limits keyed by layer-NAME patterns: a pattern selects the layers whose
+  # name it matches from the start (re.match, as everywhere else in
+  # AutoQKeras); layers that are not registered for tuning (batch
+  # normalisation, pooling) are marked for conversion under the same rule
+  _, _, o4 = hyper(repo, {"conv1": [4, 4, 4], "^fc": [4, 4, 4]})
+  ls4 = [mock_layer("Conv2D", "conv1"),
+         mock_layer("BatchNormalization", "bn_conv1"),
+         mock_layer("BatchNormalization", "conv1_bn"),
+         mock_layer("AveragePooling2D", "pool_after_conv1"),
+         mock_layer("Conv2D", "res2a_conv1x"),
+         mock_layer("Dense", "fc"),
+         mock_layer("BatchNormalization", "prefc_bn")]
+  model4 = Mock("model", {"layers": ls4})
+  cap4 = {}
+
+  def mq4(pe, a, k):
+    cap4["q_dict"] = a[1]
+    return Mock("qmodel", {})
+  pe4 = PE(repo, module_overrides={AQ: {
+      "clone_model": lambda pe, a, k: model4, "model_quantize": mq4}})
+  try:
+    pe4.call_func(Func(fn, aq, [], "quantize_model", o4, c), [Hp().mock()],
+                  {})
+    got = sorted(cap4.get("q_dict") or {})
+    want = ["conv1", "conv1_bn", "fc"]
+    rep.check(got == want, "R3", unit, "name-pattern-selection",
+              "with limits keyed by the name patterns 'conv1' and '^fc' the "
+              "layers handed to model_quantize are %s, expected %s (a "
+              "pattern selects names it matches from the start)" % (
+                  got, want), loc=loc, observed=str(got))
+  except PyRaise as e:
+    rep.fail("R3", unit, "quantize_model-raises:name-patterns",
+             "quantize_model raises %s with limits keyed by name patterns" %
+             e, loc=loc)
   # R3 filter scaling: with tune_filters "layer" / "block" every quantized
   # Dense / Conv layer is rescaled by the chosen factor, except the layers
   # whose name the exception pattern matches anywhere (search semantics:
@@ -544,6 +578,60 @@ def rule_forgiving(rep, repo):
               "for %s trials the bonus ranges over %r; it must be %s" %
               (what, vs, "non-negative" if sign_want > 0 else
                "non-positive"), loc=loc)
+
+
+def rule_forgiving_constructor(rep, repo):
+  """R6 (constructor side): ForgivingFactorBits built by its own constructors
+  with symbolic options: delta_p / delta_n are percentages (stored / 100),
+  rate, stress and the bit widths are stored under the names delta(),
+  get_reference() and the size model read; delta() of the built object has
+  the two-arm form in the object's own options."""
+  fb = repo.module(FBM)
+  ci = fb.classes.get("ForgivingFactorBits")
+  if ci is None:
+    raise AnalysisError("anchor-missing class ForgivingFactorBits")
+  unit = "%s::ForgivingFactorBits.__init__" % fb.relpath
+  rep.unit(unit)
+  loc = ci.loc()
+  fw = Fwd()
+
+  def S(n):
+    return Tensor(("sym", n), ())
+  pe = PE(repo)
+  try:
+    o = pe.call(ClassRef(ci), [S("DP"), S("DN"), S("RATE")], {
+        "stress": S("STRESS"), "input_bits": S("IB"), "output_bits": S("OB"),
+        "ref_bits": S("RB"), "config": {"default": ["parameters"]}})
+  except PyRaise as e:
+    rep.fail("R6", unit, "constructor-raises", "raises %s" % e, loc=loc)
+    return
+  N = NF.sym
+  want = {"delta_p": N("DP") * F(1, 100), "delta_n": N("DN") * F(1, 100),
+          "rate": N("RATE"), "stress": N("STRESS"), "input_bits": N("IB"),
+          "output_bits": N("OB"), "ref_bits": N("RB")}
+  for a, w in sorted(want.items()):
+    v = o.attrs.get(a)
+    got = fw(pe.as_term(v)) if v is not None else None
+    rep.check(got == w, "R6", unit, "option-stored-wrongly:" + a,
+              "ForgivingFactorBits(delta_p=DP, delta_n=DN, rate=RATE, "
+              "stress=STRESS, input_bits=IB, output_bits=OB, ref_bits=RB) "
+              "stores %s = %s, expected %s" % (
+                  a, show(got) if got is not None else None, show(w)),
+              loc=loc, observed=show(got) if got is not None else "None")
+  rep.check(o.attrs.get("config") == {"default": ["parameters"]}, "R6", unit,
+            "option-stored-wrongly:config",
+            "config is stored as %r" % (o.attrs.get("config"),), loc=loc)
+  o.attrs["trial_size"] = S("t")
+  o.attrs["reference_size"] = S("R")
+  try:
+    d = fw(pe.call(pe.getattr(o, "delta"), [], {}).term)
+    rep.check(d.depends_on(("sym", "DP")) and d.depends_on(("sym", "DN"))
+              and d.depends_on(("sym", "RATE")) and not d.depends_on(
+                  ("sym", "STRESS")), "R6", unit, "delta-ignores-options",
+              "delta() of the constructed object is %s" % show(d, 200),
+              loc=loc)
+  except PyRaise as e:
+    rep.fail("R6", unit, "delta-raises", "raises %s" % e, loc=loc)
 
 
 def rule_size(rep, repo):
@@ -1014,6 +1102,7 @@ def run(rep, repo, tier):
   rule_adjust_limit(rep, repo)
   rule_quantize_model(rep, repo)
   rule_forgiving(rep, repo)
+  rule_forgiving_constructor(rep, repo)
   rule_size(rep, repo)
   rule_act_size(rep, repo)
   rule_scheduler_limit(rep, repo)
